@@ -17,6 +17,8 @@ Documented deviations that are **part of this spec** (flagged `DEVIATION` below)
 * D3  C23 behaviours cproc implements on purpose: `()` declares a function with no parameters
       (so there is no "function without prototype" in the type language), `u8` character/string
       element type is `unsigned char`, `enum E : T`.
+* D5  an enumerated type wider than `int` (not strict C11) takes part in the usual arithmetic
+      conversions as its compatible integer type (see `commonReal`).
 * D4  a non-lvalue expression whose value comes from a bit-field (`(s.f = 1)`, `(0, s.f)`, `s.f++`)
       is not itself "a bit-field" for 6.3.1.1p2 (literal reading; GCC and clang propagate the width).
 -/
@@ -153,39 +155,41 @@ def unsignedOf : Basic → Basic
   | .llong => .ullong
   | b => b
 
-/-- `r` is a type 6.3.1.8 allows as the common real type of operands of types `t1`, `t2`
-(bit-field widths `w1`, `w2`).  It is a predicate rather than a function because for two
-*different* types of the *same* rank and signedness (an enumerated type of rank > `int` and its
-compatible type, or two such enumerated types) the text does not say which of the two is chosen;
-both are allowed here.  In every other case exactly one `r` satisfies it (`usualArith_unique`). -/
-def usualArith (cs : Bool) (t1 : ATy) (w1 : Option Nat) (t2 : ATy) (w2 : Option Nat) (r : ATy) : Bool :=
+/-- 6.3.1.8 on two *different* promoted standard integer types -/
+def commonRealB (cs : Bool) (b1 b2 : Basic) : Basic :=
+  if b1 = b2 then b1
+  else if isSigned cs b1 = isSigned cs b2 then
+    -- both signed or both unsigned: the type of greater rank
+    if rankB b1 > rankB b2 then b1 else b2
+  else
+    let u := if isSigned cs b1 then b2 else b1
+    let s := if isSigned cs b1 then b1 else b2
+    -- the unsigned operand has rank ≥ the other: the unsigned type
+    if rankB u ≥ rankB s then u
+    -- the signed type can represent all values of the unsigned type: the signed type
+    else if canRepresentAll cs s (rangeB cs u) then s
+    -- otherwise the unsigned type corresponding to the signed type
+    else unsignedOf s
+
+/-- the common real type of operands of types `t1`, `t2` (bit-field widths `w1`, `w2`).
+DEVIATION D5 (outside strict C11, where every enumeration fits `int` and is promoted away): an
+enumerated type of rank > `int` (GCC extension / C23 fixed underlying type) that is not the type
+of both operands is converted like its compatible integer type, as GCC, clang and cproc do. -/
+def commonReal (cs : Bool) (t1 : ATy) (w1 : Option Nat) (t2 : ATy) (w2 : Option Nat) : ATy :=
   -- "First, if the corresponding real type of either operand is long double, …"
-  if t1 = .basic .ldouble ∨ t2 = .basic .ldouble then r == .basic .ldouble
-  else if t1 = .basic .double ∨ t2 = .basic .double then r == .basic .double
-  else if t1 = .basic .float ∨ t2 = .basic .float then r == .basic .float
+  if t1 = .basic .ldouble ∨ t2 = .basic .ldouble then .basic .ldouble
+  else if t1 = .basic .double ∨ t2 = .basic .double then .basic .double
+  else if t1 = .basic .float ∨ t2 = .basic .float then .basic .float
   else
     -- "Otherwise, the integer promotions are performed on both operands."
     let p1 := intPromote cs t1 w1
     let p2 := intPromote cs t2 w2
     -- "If both operands have the same type, then no further conversion is needed."
-    if p1 = p2 then r == p1
-    else
-      let s1 := isSigned cs (intTypeOf p1)
-      let s2 := isSigned cs (intTypeOf p2)
-      if s1 = s2 then
-        -- both signed or both unsigned: the type of greater rank
-        if rank p1 > rank p2 then r == p1
-        else if rank p2 > rank p1 then r == p2
-        else r == p1 || r == p2
-      else
-        let u := if s1 then p2 else p1
-        let s := if s1 then p1 else p2
-        -- unsigned operand has rank ≥ the other: the unsigned type
-        if rank u ≥ rank s then r == u
-        -- the signed type can represent all values of the unsigned type: the signed type
-        else if canRepresentAll cs (intTypeOf s) (range cs u) then r == s
-        -- otherwise the unsigned type corresponding to the signed type
-        else r == .basic (unsignedOf (intTypeOf s))
+    if p1 = p2 then p1 else .basic (commonRealB cs (intTypeOf p1) (intTypeOf p2))
+
+/-- `r` is the type 6.3.1.8 gives -/
+def usualArith (cs : Bool) (t1 : ATy) (w1 : Option Nat) (t2 : ATy) (w2 : Option Nat) (r : ATy) : Bool :=
+  r == commonReal cs t1 w1 t2 w2
 
 /-! ## 6.4.4.1p5 integer constants, 6.4.4.2p4 floating constants, 6.4.4.4 character constants -/
 
@@ -318,8 +322,7 @@ end
 
 /-! ## 6.5 result types of operators
 
-Each `…Ok cs … t` says: "the expression is valid and `t` is a type C11 allows for it".  They are
-predicates because of the one place where 6.3.1.8 leaves a choice (see `usualArith`). -/
+Each `…Ok cs … t` says: "the expression is valid and `t` is the type C11 gives it". -/
 
 def isIntegerT (t : Ty) : Bool :=
   match t with
